@@ -25,6 +25,8 @@ type SrvConf struct {
 	RegOut    int      `json:"reg_out"`   // 0 node derived from candidate, 1 error, 2 fixed other node
 	PostEstab int      `json:"post_estab"` // bare mode, once the script is over: 0 leave, 1 FinishSession, 2 FailSession
 	EstabCtxS int      `json:"estab_ctx_s"` // bare mode: EstablishSession context timeout in seconds (0 = 120)
+	VanishIn  string   `json:"vanish_in"`   // "", auth, reg: the peer vanishes while the server is inside that callback
+	VanishRST bool     `json:"vanish_rst"`  // reset instead of an orderly close
 }
 
 var allSchemes = []string{"guest", "plain", "key", "transport", "external"}
@@ -99,6 +101,37 @@ type SUT struct {
 	cancel   context.CancelFunc
 	Handler  func(ctx context.Context, kind string, env interface{}, s lime.Sender) error
 	ConnMap  map[int]int // accept index -> scripted peer index
+	Peers    []*RawPeer
+}
+
+// vanish makes the peer that owns session sid (or the only peer) disappear right now.
+func (s *SUT) vanish(where, sid string) {
+	if s.Conf.VanishIn != where {
+		return
+	}
+	var target *RawPeer
+	for idx, p := range s.Peers {
+		if p == nil {
+			continue
+		}
+		for _, e := range s.h.Of(idx, "s-frame") {
+			if isSessionFrame(e.Frame) && fstr(e.Frame, "id") == sid && sid != "" {
+				target = p
+			}
+		}
+	}
+	if target == nil && len(s.Peers) == 1 {
+		target = s.Peers[0]
+	}
+	if target == nil || target.RemoteClosed().IsSet() {
+		return
+	}
+	s.w.Count("peer-vanished-in-" + where)
+	if s.Conf.VanishRST {
+		target.Reset()
+	} else {
+		target.Close()
+	}
 }
 
 func (s *SUT) authOutcome() int {
@@ -142,6 +175,11 @@ func (s *SUT) connOf(sid string) int {
 }
 
 func (s *SUT) recAuth(conn int, id lime.Identity, scheme string, auth interface{}, o int) {
+	sid := ""
+	if conn >= 1000 && conn-1000 < len(s.SIDs) {
+		sid = s.SIDs[conn-1000]
+	}
+	s.vanish("auth", sid)
 	var am map[string]interface{}
 	if auth != nil {
 		json.Unmarshal([]byte(canonJSON(auth)), &am)
@@ -151,6 +189,7 @@ func (s *SUT) recAuth(conn int, id lime.Identity, scheme string, auth interface{
 
 func (s *SUT) register(conn int) func(ctx context.Context, cand lime.Node, c *lime.ServerChannel) (lime.Node, error) {
 	return func(ctx context.Context, cand lime.Node, c *lime.ServerChannel) (lime.Node, error) {
+		s.vanish("reg", c.ID())
 		k := conn
 		if k < 0 {
 			k = s.connOf(c.ID())
